@@ -269,7 +269,8 @@ Proof.
   apply group_requests_spec in E as (A & B & C); auto. simpl in B, C.
   destruct pls as [|p pls].
   - inv H; constructor; auto with prod; discriminate.
-  - inv H; constructor.
+  - destruct (broken s2); [inv H; constructor; auto with prod; discriminate|].
+    inv H; constructor.
     + eapply keeps_q_trans; [apply eq_xo_keeps; exact X1|kq].
     + apply no_ghost_app; auto with prod. repeat constructor.
     + replace (o2 ++ [_]) with (o2 ++ [] ++ [OSendProduce 1 (magic_of s2) (map payload_view (p :: pls))]) by reflexivity.
@@ -351,7 +352,7 @@ Lemma lk_outs_ostep : forall B s s' o, eq_xl s s' -> lk_outs o -> ostep B s s' o
 Proof. intros B s s' o X L. apply ostep_same; [apply eq_xl_outstanding; auto|apply oc_lk; auto]. Qed.
 
 Definition batch_event (e : event) : bool :=
-  match e with ELoadDone _ _ _ | ETimer _ | EVersion _ | EResult _ => true | _ => false end.
+  match e with ELoadDone _ _ _ | ETimer _ | EVersion _ | EResult _ | EResultOmit _ => true | _ => false end.
 
 Lemma set_client_keeps : forall s a c, keeps_q s (set_client s a c).
 Proof. intros; kq. Qed.
@@ -383,7 +384,11 @@ Proof.
       right; split; [discriminate|]. exists d3; split; auto. simpl.
       apply lookups_progress_bstep in E3; [|rewrite (eq_xl_outstanding _ _ A1); auto|auto|congruence].
       apply bstep_seq with s2; auto with prod. apply lk_outs_ostep; auto.
-    + destruct (tid0 =? tid); [|inv H; left; auto]. inv H.
+    + destruct (tid0 =? tid); [|inv H; left; auto].
+      destruct (broken s).
+      { inv H. right; split; [discriminate|]. exists true; split; auto. constructor;
+          [apply keeps_q_refl|constructor|apply ostep_nil; reflexivity|discriminate]. }
+      inv H.
       right; split; [discriminate|]. exists false; split; auto. constructor.
       * kq.
       * repeat constructor.
@@ -406,6 +411,11 @@ Proof.
   - (* EResult *)
     destruct (ph s) eqn:P; try (inv H; left; auto; fail); simpl in D, W.
     destruct (result_ok c cur v); [|inv H; left; auto].
+    destruct (handle_result c s pls cur v) as [[s2 o2] d2] eqn:E. unfold fin_if in H. inv H.
+    right; split; [discriminate|]. exists d2; split; auto. simpl. eapply handle_result_bstep; eauto.
+  - (* EResultOmit *)
+    destruct (ph s) eqn:P; try (inv H; left; auto; fail); simpl in D, W.
+    destruct (omit_ok c cur v); [|inv H; left; auto].
     destruct (handle_result c s pls cur v) as [[s2 o2] d2] eqn:E. unfold fin_if in H. inv H.
     right; split; [discriminate|]. exists d2; split; auto. simpl. eapply handle_result_bstep; eauto.
 Qed.
@@ -555,7 +565,7 @@ Qed.
 Lemma invB_bstep : forall B s s1 o1 done B', InvB B s -> bstep B s s1 o1 done ->
   incl B' B -> NoDup (ids B') -> InvB B' s1.
 Proof.
-  intros B s s1 o1 done B' [Q1 Q2 Q3 Q4 Q5 B1 B2 B3 O1 O2 O3 NS] [[K1 K2 K3 K4 K5 K6] G O P] I D.
+  intros B s s1 o1 done B' [Q1 Q2 Q3 Q4 Q5 B1 B2 B3 O1 O2 O3 NS] [[K1 K2 K3 K4 K5 K6 K7] G O P] I D.
   assert (II : incl (ids B') (ids B)) by (apply ids_incl; auto).
   constructor; try rewrite K1; try rewrite K2; try rewrite K3; unfold id_ok in *; try rewrite K6; auto.
   - rewrite Forall_forall in *; intros i Hi; apply B2; auto.
@@ -603,10 +613,10 @@ Proof.
   assert (O12 : ostep (ids (queue s)) s s2 (o1 ++ o2)).
   { eapply ostep_trans; [|apply (bs_ostep _ _ _ _ _ E2)]. apply lk_outs_ostep with (s := s0) (s' := s1) (B := ids (queue s)) in A2; auto.
     destruct A2 as [PA IA]; constructor; auto. }
-  pose proof (bs_keeps _ _ _ _ _ E2) as [K1 K2 K3 K4 K5 K6].
+  pose proof (bs_keeps _ _ _ _ _ E2) as [K1 K2 K3 K4 K5 K6 K7].
   destruct done.
   - pose proof (invB_bstep _ _ _ _ _ [] I1 E2 (incl_nil_l _) (NoDup_nil _)) as I2.
-    destruct (finish0_inv [] s2 _ _ I2 eq_refl) as (J & _ & [L1 L2 L3 L4 L5 L6] & L7 & L8).
+    destruct (finish0_inv [] s2 _ _ I2 eq_refl) as (J & _ & [L1 L2 L3 L4 L5 L6 L7b] & L7 & L8).
     unfold finish0 in *. simpl in H. inv H.
     split; auto. split.
     { replace (ODispatch (map s_id (queue s)) :: o1 ++ o2 ++ [OBatchDone]) with ([ODispatch (map s_id (queue s))] ++ (o1 ++ o2) ++ [OBatchDone])
@@ -648,7 +658,7 @@ Lemma finish_inv : forall c B s s' o, InvB B s -> finish c s = (s', o) ->
   exists o2, o = OBatchDone :: o2.
 Proof.
   unfold finish; intros c B s s' o I H.
-  destruct (finish0_inv B s _ _ I eq_refl) as (J & _ & [L1 L2 L3 L4 L5 L6] & L7 & L8).
+  destruct (finish0_inv B s _ _ I eq_refl) as (J & _ & [L1 L2 L3 L4 L5 L6 L7b] & L7 & L8).
   unfold finish0 in *. cbn [fst snd] in *.
   destruct (check_send_batch c _) as [s2 o2] eqn:E. inv H.
   apply check_send_batch_inv in E as (A & Bq & C & D & F); auto.
@@ -841,7 +851,7 @@ Proof.
     try apply (i_onodup _ _ IB); try apply (i_bnodup _ _ IB).
   - simpl in A. inv A. constructor; simpl; rewrite ?NSd; try lia; [split; auto|rewrite app_nil_r; reflexivity].
   - assert (St : stopping s = false) by (destruct (stopping s); auto; exfalso; auto).
-    pose proof (bs_keeps _ _ _ _ _ BS) as [K1 K2 K3 K4 K5 K6].
+    pose proof (bs_keeps _ _ _ _ _ BS) as [K1 K2 K3 K4 K5 K6 K7].
     destruct done.
     + pose proof (invB_bstep _ _ _ _ _ [] IB BS (incl_nil_l _) (NoDup_nil _)) as I2.
       simpl in A. apply finish_inv with (B := []) in A as (W2 & O2 & S2 & L2 & N2 & _); auto.
@@ -872,7 +882,7 @@ Proof.
       eapply winv_frame with (s := s); auto.
     - pose proof (cancel_batch_done c s0 cv _ _ _ (eq_refl : stopping s0 = true) PW P E) as ->.
       apply cancel_batch_bstep in E; auto; [|apply (i_onodup _ _ I0)|apply (i_bnodup _ _ I0)].
-      pose proof (bs_keeps _ _ _ _ _ E) as [K1 K2 K3 K4 K5 K6].
+      pose proof (bs_keeps _ _ _ _ _ E) as [K1 K2 K3 K4 K5 K6 K7].
       pose proof (invB_bstep _ _ _ _ _ [] I0 E (incl_nil_l _) (NoDup_nil _)) as I2.
       destruct (apply_epi c s1 Fin) as [s2 o2] eqn:A. exists s2, o2. split; auto. simpl in A.
       apply finish_inv with (B := []) in A as (W2 & O2 & S2 & L2 & N2 & _); auto.
@@ -957,6 +967,11 @@ Proof.
   - (* ETimer *) eapply step_batch_inv; [split; [exact W|exact L]|reflexivity|exact H].
   - (* EVersion *) eapply step_batch_inv; [split; [exact W|exact L]|reflexivity|exact H].
   - (* EResult *) eapply step_batch_inv; [split; [exact W|exact L]|reflexivity|exact H].
+  - (* EResultOmit *) eapply step_batch_inv; [split; [exact W|exact L]|reflexivity|exact H].
+  - (* EBroken *)
+    destruct (NS ltac:(intros ? X; discriminate X)) as (s1 & o1 & ep & o2 & C & A & ->). cbn [core] in C.
+    inv C. simpl in A. inv A. constructor; simpl; try lia; [|rewrite app_nil_r; reflexivity].
+    split; [|exact L]. eapply winv_frame with (s := s); simpl; auto. eapply invB_same; eauto.
   - (* EStop *) eapply step_stop_inv; [split; [exact W|exact L]|exact H].
 Qed.
 
@@ -983,4 +998,78 @@ Theorem reachable_inv : forall c s, reachable c s -> Inv s.
 Proof.
   intros c s (h & a & ca & evs & <-). destruct (run c _ evs) as [s' tr] eqn:E. simpl.
   eapply run_inv; [|exact E]. apply init_inv.
+Qed.
+
+(* ------------------------------------------------------------------ only the EBroken event touches [broken] *)
+Lemma dispatch_broken : forall c s s' o, dispatch c s = (s', o) -> broken s' = broken s.
+Proof.
+  unfold dispatch; intros c s s' o H.
+  destruct (map_lookups _ _ (queue s) _) as [[s1 o1] ls] eqn:E1.
+  apply map_lookups_xl in E1 as (A1 & _ & _);
+    [|intros st x l st' o' l' Hf; inv Hf; eapply lookup_head_xl; eauto].
+  apply eq_xl_keeps in A1. destruct A1 as [_ _ _ _ _ _ B1]. simpl in B1.
+  destruct (lookups_progress s1 (queue s) ls) as [[s2 o2] done] eqn:E2.
+  apply lookups_progress_ok in E2 as [[_ _ _ _ _ _ B2] _ _].
+  destruct done; [unfold finish0 in H|]; inv H; simpl; congruence.
+Qed.
+
+Lemma epi_broken : forall c s1 ep s2 o2, apply_epi c s1 ep = (s2, o2) -> broken s2 = broken s1.
+Proof.
+  intros c s1 ep s2 o2 A.
+  assert (T : forall s s' o, try_send_batch c s = (s', o) -> broken s' = broken s).
+  { intros s s' o H. apply try_send_batch_spec in H as [[_ D]|(_ & -> & _)]; auto. eapply dispatch_broken; eauto. }
+  assert (Ck : forall s s' o, check_send_batch c s = (s', o) -> broken s' = broken s).
+  { unfold check_send_batch; intros s s' o H. destruct (threshold c s); [eauto|inv H; auto]. }
+  destruct ep; simpl in A; eauto.
+  - inv A; auto.
+  - unfold finish, finish0 in A. destruct (check_send_batch c _) as [s4 o4] eqn:E. inv A. apply Ck in E. exact E.
+Qed.
+
+Lemma cancel_send_broken : forall s sid s1 o1, cancel_send s sid = (s1, o1) -> broken s1 = broken s.
+Proof.
+  unfold cancel_send; intros s sid s1 o1 H. destruct (negb (zmem sid (outstanding s))); [inv H; auto|].
+  destruct (remove_send sid (queue s)) as [[x q]|]; inv H; reflexivity.
+Qed.
+Lemma cancel_all_broken : forall ids0 s s1 o1, cancel_all s ids0 = (s1, o1) -> broken s1 = broken s.
+Proof.
+  induction ids0 as [|i r IH]; simpl; intros s s1 o1 H; [inv H; auto|].
+  destruct (cancel_send s i) as [s2 o2] eqn:E. destruct (cancel_all s2 r) as [s3 o3] eqn:E3. inv H.
+  apply cancel_send_broken in E. apply IH in E3. congruence.
+Qed.
+
+Theorem step_broken : forall c s e s' out, Inv s -> step c s e = (s', out) ->
+  broken s' = match e with EBroken b => b | _ => broken s end.
+Proof.
+  intros c s e s' out I H. pose proof I as [W L]. pose proof W as [IB PW ID ST].
+  assert (NS : (forall cv, e <> EStop cv) -> exists s1 o1 ep o2, core c s e = (s1, o1, ep) /\ apply_epi c s1 ep = (s', o2) /\ out = o1 ++ o2)
+    by (intros; eapply step_nonstop; eauto).
+  destruct (batch_event e) eqn:BE.
+  - destruct (NS ltac:(intros ? ->; discriminate)) as (s1 & o1 & ep & o2 & C & A & ->).
+    apply epi_broken in A. rewrite A.
+    assert (X : broken s1 = broken s).
+    { apply core_batch in C as [(-> & _)|(_ & done & BS & _)]; auto;
+        try apply (i_onodup _ _ IB); try apply (i_bnodup _ _ IB).
+      destruct (bs_keeps _ _ _ _ _ BS) as [_ _ _ _ _ _ K]. exact K. }
+    rewrite X. destruct e; try discriminate; reflexivity.
+  - destruct e; try discriminate.
+    + destruct (NS ltac:(intros ? X; discriminate X)) as (s1 & o1 & ep & o2 & C & A & ->). cbn [core] in C.
+      apply epi_broken in A. rewrite A. destruct ((cnt <? 1) || (bytes <? 0)); [|destruct (stopping s)]; inv C; reflexivity.
+    + destruct (NS ltac:(intros ? X; discriminate X)) as (s1 & o1 & ep & o2 & C & A & ->). cbn [core] in C.
+      apply epi_broken in A. rewrite A. inv C; reflexivity.
+    + destruct (NS ltac:(intros ? X; discriminate X)) as (s1 & o1 & ep & o2 & C & A & ->). cbn [core] in C.
+      apply epi_broken in A. rewrite A. destruct (cancel_send s sid) as [s2 o3] eqn:Ec. inv C. eapply cancel_send_broken; eauto.
+    + destruct (NS ltac:(intros ? X; discriminate X)) as (s1 & o1 & ep & o2 & C & A & ->). cbn [core] in C.
+      apply epi_broken in A. rewrite A. inv C; reflexivity.
+    + destruct (NS ltac:(intros ? X; discriminate X)) as (s1 & o1 & ep & o2 & C & A & ->). cbn [core] in C.
+      apply epi_broken in A. rewrite A. inv C; reflexivity.
+    + destruct (NS ltac:(intros ? X; discriminate X)) as (s1 & o1 & ep & o2 & C & A & ->). cbn [core] in C.
+      apply epi_broken in A. rewrite A. inv C; reflexivity.
+    + destruct (NS ltac:(intros ? X; discriminate X)) as (s1 & o1 & ep & o2 & C & A & ->). cbn [core] in C.
+      apply epi_broken in A. rewrite A. inv C; reflexivity.
+    + unfold step in H. set (s0 := set_flags s true (looper s)) in *.
+      destruct (cancel_batch c s0 cv) as [[s1 o1] done] eqn:E.
+      apply cancel_batch_ok in E. destruct E as [[_ _ _ _ _ _ K] _ _].
+      unfold fin_if in H. destruct (apply_epi c s1 (if done then Fin else NoEpi)) as [s2 o2] eqn:A.
+      apply epi_broken in A. destruct (cancel_all _ _) as [s4 o4] eqn:E4. inv H.
+      apply cancel_all_broken in E4. simpl in *. congruence.
 Qed.
